@@ -266,6 +266,66 @@ def search(payload):
                         if got != ("ok", exp_val) or [c[0] for c in log] != exp_calls:
                             fails.append({"op": opname, "library_atom": gname, "library_atom_is_the": side + " operand", "other_operand_returns": other, "x": repr(x),
                                           "result": repr(got), "expected": exp_val, "calls_of_the_other_operand": [c[0] for c in log], "expected_calls": exp_calls})
+    # the OPERATORS on library atoms of every class: (p & q)(x), (p | q)(x), (p ^ q)(x), (~p)(x) against p(x), q(x) combined by Python's own
+    # and / or / != / not (an overload on one class, a re-association, a "smart" negation must not change a single answer)
+    from collections.abc import Container, Iterable
+    from predicate.standard_predicates import (ge_le_p, ge_lt_p, gt_le_p, gt_lt_p, gt_p, is_instance_p, lt_p, neg_p, pos_p, zero_p, eq_true_p, eq_false_p)
+    from predicate.set_predicates import not_in_p, is_subset_p
+    ops_atoms = [is_instance_p(int, float, str), is_instance_p(bool, str), is_int_p, is_bool_p, is_str_p, is_float_p, is_instance_p(Iterable, int),
+                 is_instance_p(Container, int), ge_le_p(0.0, 1.0), ge_lt_p(0, 2), gt_le_p(0, 2), gt_lt_p(0.0, 1.0), ge_le_p(1, 1), ge_p(1), gt_p(1), le_p(1),
+                 lt_p(3), eq_p(1), ne_p(1), in_p(1, 2), not_in_p(1, 2), is_none_p, is_not_none_p, PP.always_true_p, PP.always_false_p, is_truthy_p, is_falsy_p,
+                 neg_p, zero_p, pos_p, eq_true_p, eq_false_p, PP.is_empty_p, is_subset_p({1, 2})]
+    ops_values = [True, False, 0, 1, 0.5, 2, nan, "a", None, [1, 2], (1,), 3.5, {1}, -1]
+
+    def raw(a, x):
+        try:
+            return ("ok", bool(a(x)))
+        except Exception as e:  # noqa: BLE001
+            return ("raise", type(e).__name__)
+    pairs_ = list(itertools.product(range(len(ops_atoms)), repeat=2))
+    if not payload.get("deep") and payload.get("tier") == "quick":
+        pairs_ = rng.sample(pairs_, 500)
+    bad_ops = 0
+    for i_, j_ in pairs_:
+        a_, b_ = ops_atoms[i_], ops_atoms[j_]
+        try:
+            built = {"&": a_ & b_, "|": a_ | b_, "^": a_ ^ b_}
+        except Exception as e:  # noqa: BLE001
+            fails.append({"case": "building p OP q raised", "p": repr(a_), "q": repr(b_), "error": f"{type(e).__name__}: {e}"})
+            continue
+        for x in ops_values:
+            pv, qv = raw(a_, x), raw(b_, x)
+            for sym, node in built.items():
+                n += 1
+                if pv[0] == "raise":
+                    exp_ = pv
+                elif sym == "&":
+                    exp_ = ("ok", False) if not pv[1] else qv
+                elif sym == "|":
+                    exp_ = ("ok", True) if pv[1] else qv
+                else:
+                    exp_ = qv if qv[0] == "raise" else ("ok", pv[1] != qv[1])
+                got_ = raw(node, x)
+                if got_ != exp_ and not (got_[0] == exp_[0] == "raise"):
+                    bad_ops += 1
+                    if bad_ops <= 4:
+                        fails.append({"case": f"(p {sym} q)(x) differs from p(x) {'and' if sym == '&' else 'or' if sym == '|' else '!='} q(x)", "p": repr(a_), "q": repr(b_),
+                                      "x": repr(x), "p(x)": repr(pv), "q(x)": repr(qv), "result": repr(got_), "expected": repr(exp_), "built_node": repr(node)})
+    for a_ in ops_atoms:
+        try:
+            na = ~a_
+        except Exception as e:  # noqa: BLE001
+            fails.append({"case": "building ~p raised", "p": repr(a_), "error": f"{type(e).__name__}: {e}"})
+            continue
+        for x in ops_values:
+            n += 1
+            pv = raw(a_, x)
+            exp_ = pv if pv[0] == "raise" else ("ok", not pv[1])
+            got_ = raw(na, x)
+            if got_ != exp_ and not (got_[0] == exp_[0] == "raise"):
+                fails.append({"case": "(~p)(x) differs from not p(x)", "p": repr(a_), "x": repr(x), "p(x)": repr(pv), "result": repr(got_), "expected": repr(exp_),
+                              "built_node": repr(na)})
+                break
     # nested comp_p: comp_p(f, comp_p(g, p))(x) is p(g(f(x)))
     for f_, g_, x, want in ((len, str, "abc", "3"), (len, str, [7, 8, 9], "3"), (str, len, 12345, 5), (lambda v: v + 1, lambda v: v * 2, 3, 8), (lambda v: v * 2, lambda v: v + 1, 3, 7)):
         n += 1
